@@ -2,6 +2,7 @@ package main
 
 import (
 	"encoding/json"
+	"os"
 
 	"github.com/bfenetworks/bfe/bfe_util/hash_set"
 	"github.com/bfenetworks/bfe/bfe_util/ipdict"
@@ -65,8 +66,11 @@ func hsKey(id int, valid, fixed bool) []byte {
 	return []byte{b, 1, 2, 3, 4, 5, 6}
 }
 
+// hsMaxHangs: a hung call leaves a spinning goroutine behind; stop after a few of them.
+const hsMaxHangs = 3
+
 func hashsetRun() {
-	cases, drift := 0, 0
+	cases, drift, hangs := 0, 0, 0
 	var driftEx []string
 	vh.EachCase(func(line []byte) {
 		var c hsCase
@@ -75,6 +79,9 @@ func hashsetRun() {
 			return
 		}
 		cases++
+		if hangs >= hsMaxHangs {
+			return
+		}
 		valid := map[int]bool{}
 		for _, v := range c.Valid {
 			valid[v] = true
@@ -111,7 +118,7 @@ func hashsetRun() {
 			ex := []int{}
 			ln := 0
 			detail := ""
-			p := vh.Guard(func() {
+			p, finished := guardTimeout(func() {
 				arg := append([]byte{}, keys[op.K]...)
 				var e error
 				if op.Op == "add" {
@@ -134,6 +141,12 @@ func hashsetRun() {
 				}
 				ln = set.Len()
 			})
+			if !finished { // the call (or the Exist/Len probes after it) did not return
+				hangs++
+				vh.Emit(map[string]interface{}{"cid": c.ID, "ev": op.Op, "k": op.K, "ret": -2, "ex": []int{}, "len": 0,
+					"detail": "call did not return within 12s"})
+				break
+			}
 			ev := map[string]interface{}{"cid": c.ID, "ev": op.Op, "k": op.K, "ret": ret, "ex": ex, "len": ln}
 			if p != "" {
 				ev["ret"] = -1
@@ -153,5 +166,9 @@ func hashsetRun() {
 			vh.Emit(ev)
 		}
 	})
-	vh.Emit(map[string]interface{}{"summary": true, "cases": cases, "drift": drift, "drift_examples": driftEx})
+	vh.Emit(map[string]interface{}{"summary": true, "cases": cases, "drift": drift, "drift_examples": driftEx, "hangs": hangs})
+	if hangs > 0 {
+		vh.Flush()
+		os.Exit(0) // do not wait for the spinning goroutines
+	}
 }
